@@ -600,7 +600,7 @@ fn main() {
         property: "C03",
         classes: CLASSES,
         required: &["exact", "refused_out_of_range", "operator_panics", "day_truncation", "day_count_refused", "crosses_year", "crosses_400y", "iter_exhausted", "range_end_reached", "depth2", "offset_pair", "sibling_exact", "sibling_panics"],
-        rule: "history exploration: seeds B_date x B_time (non-leap) as NaiveDateTime; actions +-d for every d of the duration alphabet through checked_add_signed / checked_sub_signed / operators (panic iff refused), to depth 2 with deduplication on the instant; after each action the distance back, b+(a-b)=a and the order are checked; the same steps through DateTime<FixedOffset> at several offsets and through the sibling forms (+= / -=, std::time::Duration operands, FixedOffset operands, Days on date-times, checked_add_offset); NaiveDate x durations (whole-day truncation) and x Days counts from the u64 lattice; all dates x fixed day steps (sweep); day/week iterators forward and backward from boundary dates (bounded prefix) and to exhaustion near both range ends with size_hint checked at every step; non-trivial = refusal, year/400-year crossing, truncation, iterator end, range end reached exactly",
+        rule: "history exploration: seeds B_date x B_time (non-leap) as NaiveDateTime; actions +-d for every d of the duration alphabet through checked_add_signed / checked_sub_signed / operators (panic iff refused), to depth 2 with deduplication on the instant; after each action the distance back, b+(a-b)=a and the order are checked; the same steps through DateTime<FixedOffset> at several offsets and through the sibling forms (+= / -=, std::time::Duration operands, FixedOffset operands, Days on date-times, checked_add_offset); NaiveDate x durations (whole-day truncation) and x Days counts from the u64 lattice; all dates x fixed day steps (sweep); day/week iterators forward and backward from boundary dates (bounded prefix of 800 items, two runs of 70,000 items) and to exhaustion near both range ends with size_hint checked at every step; non-trivial = refusal, year/400-year crossing, truncation, iterator end, range end reached exactly",
         assumptions: &["durations between alphabet members rely on the i128 model being uniform between the carries the alphabet brackets (second, day, year, 400-year cycle, range span, i32 days)", "leap-second operands are excluded here (C07)"],
     };
     let tier = args.tier;
